@@ -315,7 +315,8 @@ type wire struct {
 	Headers map[string]string `json:"headers"`
 	Body    string            `json:"body,omitempty"`
 	// Chunked: the body is sent with Transfer-Encoding: chunked (no Content-Length) - the same credentials, another framing
-	Chunked bool `json:"chunked_body,omitempty"`
+	Chunked bool     `json:"chunked_body,omitempty"`
+	Noise   []string `json:"noise,omitempty"`
 }
 
 func queryEscape(s string) string {
@@ -353,10 +354,33 @@ func (r lreq) wire(path string) wire {
 			body = append(body, name+"="+queryEscape(it.Value))
 		}
 	}
+	// noise that carries no credentials: it must not change what an authenticator finds (seeded by the request itself)
+	noise := 0
+	for _, s := range [][]string{q, body, cookies} {
+		for _, x := range s {
+			for i := 0; i < len(x); i++ {
+				noise = noise*31 + int(x[i])
+			}
+		}
+	}
+	if noise < 0 {
+		noise = -noise
+	}
 	if len(cookies) > 0 {
+		if noise%3 == 1 {
+			// the same cookie name again, empty, after the real one (net/http: the first one counts)
+			name, _, _ := strings.Cut(cookies[0], "=")
+			cookies = append(cookies, "theme=dark", name+"=")
+			w.Noise = append(w.Noise, "duplicate-empty-cookie")
+		}
 		w.Headers["Cookie"] = strings.Join(cookies, "; ")
 	}
 	if len(q) > 0 {
+		if noise%3 == 0 {
+			// unrelated parameters which net/url cannot parse; the credential pair itself is well-formed
+			q = append(q, []string{"filter=a;b", "q=100%", "redirect=%zz", "x=%"}[noise/3%4])
+			w.Noise = append(w.Noise, "unparsable-unrelated-query-parameter")
+		}
 		w.Target += "?" + strings.Join(q, "&")
 	}
 	if len(body) > 0 {
